@@ -357,8 +357,12 @@ func (w *world) bigintPoints(r *hlib.Rng) {
 				emitCoords(pt)
 			}
 		}
-		// encodePoint: every pair of lengths 0..cs+2 on a thinned grid (cs+1 overwrites the 0x04, cs+2 panics)
-		ls := []int{0, 1, 2, cs / 2, cs - 2, cs - 1, cs, cs + 1, cs + 2}
+		// encodePoint: every pair of lengths 0..cs on a thinned grid. The unexported helper's only
+		// call site passes coordinates of exactly cs bytes and its contract is len ≤ cs; what it does
+		// beyond that (the original overwrites the 0x04 at cs+1 and panics at cs+2) is not behaviour
+		// C12 speaks about, and a behaviour-preserving rewrite may change it (false alarm on the
+		// harmless refactoring C09C12-3, see DESIGN §9.6).
+		ls := []int{0, 1, 2, cs / 2, cs - 2, cs - 1, cs}
 		for _, lx := range ls {
 			for _, ly := range ls {
 				x, y := r.Bytes(lx), r.Bytes(ly)
